@@ -22,6 +22,26 @@ Mutation sanity check (scratch copies of hypatia/query/__init__.py, quick tier, 
      semantics-preserving (a stale `uppers` entry is re-paired onto a fresh position and loses nothing) –
      correctly reported as shape drift only (`no-failing-input-found`), no failing input exists.
 A sabotaged hazard report (D5 hidden from `optsafe`) is caught as OPTSAFE-CONTRADICTION.
+
+`xopt` (mode `exotic`, 12% of the cases): trees over constants the Lean model cannot express - RangeValue as the
+value of Eq/NotEq/Any/NotAny on a field index, floats, tuples as containers, Names bound late (to a value, a
+RangeValue, a whole container), biased to the operand lists the optimiser folds and pairs.  Three opinions per
+tree: execute(optimize=True), execute(optimize=False), and `qtree.xsem`, an independent evaluation over the
+documents' values; the command's answer is `ok` iff they agree (the driver only acknowledges the line).  Trees
+meeting D2/D3/D5 are not generated (`qtree.xhazards` mirrors construct/negate/fold in Python); 3% carry a
+legacy tuple/list Eq constant under a fold = D23 (provisional finding of this stream, classified only when the
+optimised run raises TypeError, the other two agree and the fold contains such a constant).
+Quick tier, seed 0, 8000 cases: 4700 xopt trees (RangeValue 1850, float 2400, Name 2450, tuple/Name
+containers 440; folds: Any 1350, NotAny 800, All 250 - over RangeValue 1150, Name 1150, float 800; 460 with
+lower+upper bounds; 320 mixing same-named indexes); modes large 5% / wide 5% (as C04) / twocat 8% (1400 plain
+trees mixing same-named indexes of two catalogs); `optrepeat` (15% of the opt commands): a sibling query over the
+same operand objects and Not(q) are optimised and executed first, then q twice.
+Seeded changes C05_A-F all give VIOLATION with a failing input (E: applyAny without RangeValue, F: folding
+across same-named indexes).  Own mutations (scratch copies, quick, seed 0; all VIOLATION with a failing input):
+  N1 `Query.union` updates a > 32x bigger left operand in place        N2 `And._apply` > 16 operands stops at one doc
+  N3 `_optimize_eq` de-duplicates the folded values through a dict (Name and list constants are unhashable)
+  N4 the lowers/uppers pairing dictionaries are keyed by index NAME (pairs bounds of same-named indexes)
+  N5 `FieldIndex.applyGt(v)` = applyInRange(v + 1) (optimised = unoptimised, both differ from `xsem`)
 """
 from lib import qtree
 from lib.core import exc_name, Infra, split_ms
@@ -37,7 +57,12 @@ THEOREMS = ["Hyp.Query." + t for t in (
     "c05_illtyped_order_witness", "c05_end_to_end_partial", "c05_optimize_keeps_text_leaves", "c05_d3_exact", "c05_d5_exact", "c05_d2_exact")]
 CASES = {"quick": 8000, "thorough": 200000}
 BUDGET_S = {"quick": 40, "thorough": 700}
-RULE = ("catalogs of 1-4 real indexes with 0-25 documents, with and without no-value documents; trees biased to "
+RULE = ("modes: small 70% (below), exotic 12% (xopt: RangeValue / float / tuple-container / late-bound Name constants; "
+        "optimised vs unoptimised vs an independent Python evaluation, no Lean answer for these; away from D2/D3/D5, "
+        "D23 classified), twocat 8% (same-named indexes of two catalogs in one query), large 5% (50-400 documents, "
+        "skewed sizes), wide 5% (9-40 operands); 15% of the opt commands repeat the execution around a sibling "
+        "query over the same operand objects; small: "
+        "catalogs of 1-4 real indexes with 0-25 documents, with and without no-value documents; trees biased to "
         "several comparators on the same index (>= 3 range bounds, contradictory bounds, lo > hi), all 14 "
         "comparators, depth <= 4; each tree is executed with optimize=True and False, the optimised tree's "
         "shape is compared with the model's optimiser output, and the original query object is snapshotted "
@@ -51,25 +76,112 @@ LEVEL_TEXT = ("Lean 4 whole-tree theorem about the model of _optimize (Eq/NotEq 
               "proved counterexample); the optimiser model is tied to hypatia/query by comparing optimised tree "
               "shapes and results on real catalogs, and OptSafe is evaluated on every generated tree")
 LEVEL_NOTE = ("leaves answered at specification level; known findings D2, D3, D5 are mirrored by the model and "
-              "reported as KNOWN-FINDING; trusted: Lean kernel, sampled correspondence, harness")
+              "reported as KNOWN-FINDING; constants outside the model (RangeValue, floats, Names, containers) are "
+              "covered by a differential stream only (xopt, D23 found there); trusted: Lean kernel, sampled "
+              "correspondence, harness")
 TECHNIQUE = "Lean 4 proof over the optimiser model (loop invariant, induction on the tree) + differential correspondence"
 
 
-def gen(rng, tier, idx):
+MODES = (("exotic", 0.12), ("large", 0.05), ("wide", 0.05), ("twocat", 0.08))
+
+
+def pick_mode(rng):
+    r = rng.random()
+    for m, p in MODES:
+        if r < p:
+            return m
+        r -= p
+    return "small"
+
+
+def opt_cmds(rng, toks, repeat_p=0.15):
+    cmds = [["optrepeat" if rng.random() < repeat_p else "opt"] + toks, ["optsafe"] + toks, ["optshape"] + toks]
+    if rng.random() < 0.3:
+        cmds.append(["apply"] + toks)
+    return cmds
+
+
+def gen_exotic(rng):
+    """`xopt`: trees over constants the Lean model cannot express (RangeValue, floats, tuple containers, Names
+    bound late - lib/qtree.py, last section); optimised vs unoptimised vs independent evaluation.  Trees that
+    run into the recorded findings D2/D3/D5 are not generated (qtree.xhazards); 3% of the trees carry a legacy
+    tuple/list Eq constant under a fold (D23, classified)"""
     total = rng.random() < 0.4
-    kinds, cfg, docs = qtree.gen_catalog(rng, total)
-    if "field" not in kinds and rng.random() < 0.7:
-        kinds, cfg, docs = qtree.gen_catalog(rng, total, kinds=["field"] + kinds[:2])
+    twocat = rng.random() < 0.3
+    kinds = qtree.pair_kinds(rng) if twocat else \
+        [rng.choice(["field", "field", "keyword"]) for _ in range(rng.choice([1, 2, 2, 3]))]
+    kinds = [k if k in ("field", "keyword") else "field" for k in kinds]
+    kinds, cfg, docs, _ = qtree.gen_catalog_x(rng, total, kinds=kinds, twocat=twocat,
+                                              ndocs=rng.choice([1, 3, 5, 8, 12, 25, 60]), idrange=80)
+    has_none = {c[1]: True for c in docs if c[3:] == ["none"]}
     cmds = list(docs)
     for _ in range(rng.randrange(3, 8)):
-        t = qtree.gen_tree(rng, kinds, rng.randrange(1, 5), range_bias=rng.choice([0.0, 0.5, 0.9]))
-        toks = qtree.flat_tokens(t)
-        cmds.append(["opt"] + toks)
-        cmds.append(["optsafe"] + toks)
-        cmds.append(["optshape"] + toks)
-        if rng.random() < 0.3:
-            cmds.append(["apply"] + toks)
-    return {"session": "query", "cfg": cfg, "kinds": kinds, "cmds": cmds}
+        legacy = rng.random() < 0.03
+        for _ in range(20):
+            t = qtree.gen_xtree(rng, kinds, rng.choice([1, 2, 2, 3]), legacy)
+            hz = qtree.xhazards(t, kinds, has_none)
+            if not hz or (legacy and hz == {"D23"}):
+                break
+        else:
+            t = qtree.gen_xleaf(rng, kinds)
+        cmds.append(["xopt"] + qtree.flat_tokens(t))
+    if rng.random() < 0.5:
+        # plain trees on the same catalog, answered by the model
+        for _ in range(rng.randrange(1, 3)):
+            cmds += opt_cmds(rng, qtree.flat_tokens(qtree.gen_eqfold(rng, kinds)))
+    return {"session": "query", "cfg": cfg, "kinds": kinds, "cmds": cmds, "mode": "exotic"}
+
+
+def gen(rng, tier, idx):
+    mode = pick_mode(rng)
+    if mode == "exotic":
+        return gen_exotic(rng)
+    total = rng.random() < 0.4
+    dist = None
+    if mode in ("large", "wide"):
+        # size- and arity-dependent paths of And/Or under the optimiser (see props/c04.py gen_sized)
+        kinds = [rng.choice(["field", "field", "keyword"]) for _ in range(rng.choice([1, 2, 2, 3]))]
+        ndocs = rng.choice([50, 64, 80, 120, 200, 400]) if mode == "large" else rng.choice([8, 12, 25, 40, 60])
+        dist = qtree.Dist(rng, rng.choice([12, 40]) if mode == "large" else 40, 12, mode == "large")
+        kinds, cfg, docs, _ = qtree.gen_catalog_x(rng, total, kinds=kinds, ndocs=ndocs, dist=dist, idrange=2 * ndocs)
+    elif mode == "twocat":
+        kinds, cfg, docs, _ = qtree.gen_catalog_x(rng, total, kinds=qtree.pair_kinds(rng), twocat=True)
+    else:
+        kinds, cfg, docs = qtree.gen_catalog(rng, total)
+        if "field" not in kinds and rng.random() < 0.7:
+            kinds, cfg, docs = qtree.gen_catalog(rng, total, kinds=["field"] + kinds[:2])
+    cmds = list(docs)
+    for _ in range(rng.randrange(3, 8)):
+        r = rng.random()
+        if mode == "large" and r < 0.7:
+            t = qtree.gen_skew(rng, kinds, total, dist=dist)
+        elif mode in ("large", "wide") and r < 0.85:
+            t = qtree.gen_wide(rng, kinds, total, dist=dist)
+        elif mode == "twocat" and r < 0.5 or mode == "small" and r < 0.06:
+            t = qtree.gen_eqfold(rng, kinds, dist=dist)
+        else:
+            t = qtree.gen_tree(rng, kinds, rng.randrange(1, 5), range_bias=rng.choice([0.0, 0.5, 0.9]), dist=dist)
+        cmds += opt_cmds(rng, qtree.flat_tokens(t))
+    return {"session": "query", "cfg": cfg, "kinds": kinds, "cmds": cmds, "mode": mode}
+
+
+def xopt(im, t):
+    """three opinions on one exotic tree; 'ok' when they agree (the model side answers `ok`: the Lean model
+    has no such constants, the specification here is the independent evaluation `qtree.xsem`)"""
+    names = {}
+    q = im.xbuild(t, names)
+    before = im.snapshot(q)
+    ro = qtree.run_ids(lambda: q.execute(optimize=True, names=dict(names)))
+    ru = qtree.run_ids(lambda: q.execute(optimize=False, names=dict(names)))
+    if im.snapshot(q) != before:
+        return "query-object-mutated"
+    try:
+        rs = qtree.idset(qtree.xsem(t, im.kinds, im.table))
+    except Exception as e:           # the oracle itself must not fail
+        raise Infra("xsem failed on %r: %r" % (t, e))
+    if ro == ru == rs:
+        return "ok"
+    return "optimised=%s unoptimised=%s independent=%s" % (ro, ru, rs)
 
 
 def impl_run(hyp, case):
@@ -83,6 +195,9 @@ def impl_run(hyp, case):
                 out.append("ok")
                 continue
             t = qtree.parse_tokens(list(c[1:]))
+            if op == "xopt":
+                out.append(xopt(im, t))
+                continue
             q = im.build(t)
             if op == "apply":
                 out.append(qtree.run_ids(lambda: q.execute(optimize=False)))
@@ -90,6 +205,20 @@ def impl_run(hyp, case):
                 before = im.snapshot(q)
                 r = qtree.run_ids(lambda: q.execute(optimize=True))
                 out.append(r if im.snapshot(q) == before else "query-object-mutated")
+            elif op == "optrepeat":
+                # shared operand objects and repeated execution: a sibling query over the SAME operand objects
+                # is optimised and executed first, then the query twice; the answers must not differ
+                from hypatia import query as Q
+                before = im.snapshot(q)
+                if isinstance(q, Q.BoolOp):
+                    sib = (Q.Or if isinstance(q, Q.And) else Q.And)(*q.queries)
+                    qtree.run_ids(lambda: sib.execute(optimize=True))
+                    qtree.run_ids(lambda: Q.Not(q).execute(optimize=True))
+                r1 = qtree.run_ids(lambda: q.execute(optimize=True))
+                qtree.run_ids(lambda: q.execute(optimize=False))
+                r2 = qtree.run_ids(lambda: q.execute(optimize=True))
+                out.append("query-object-mutated" if im.snapshot(q) != before else
+                           r1 if r1 == r2 else "first=%s second=%s" % (r1, r2))
             elif op == "optsafe":
                 out.append(None)        # model-side observable, filled in by post_model
             elif op == "optshape":
@@ -100,6 +229,8 @@ def impl_run(hyp, case):
                            else "query-object-mutated")
             else:
                 raise ValueError(c)
+        except Infra:
+            raise
         except Exception as e:
             out.append(exc_name(e))
     return out
@@ -118,7 +249,7 @@ def post_model(hyp, case, mouts, iouts):
             iouts[i] = m
             _SAFE[tuple(map(str, c[1:]))] = m
     for i, c in enumerate(case["cmds"]):
-        if c[0] == "opt" and _SAFE.get(tuple(map(str, c[1:]))) == "safe":
+        if c[0] in ("opt", "optrepeat") and _SAFE.get(tuple(map(str, c[1:]))) == "safe":
             m, s = split_ms(mouts[i])
             if m != s:
                 raise Infra("driver contradicts c05_optimize_sound_partial: %r inside wellTyped/OptSafe gives "
@@ -133,6 +264,10 @@ def safety(c):
 def model_cmd(c):
     # the unoptimised execution is only cross-checked against the model here (its set-theoretic
     # reading is C04's business)
+    if c[0] == "xopt":
+        return ["cfg", "xopt"]          # no model answer: the driver acknowledges the line with `ok`
+    if c[0] == "optrepeat":
+        return ["opt"] + list(c[1:])
     return ["applym"] + list(c[1:]) if c[0] == "apply" else c
 
 
@@ -175,7 +310,9 @@ def tree_info(t, kinds, neg=False, acc=None):
 def classify(case, i, impl, model, spec):
     """The model mirrors the three recorded optimiser findings, so they show as impl == model != spec."""
     c = case["cmds"][i]
-    if c[0] != "opt" or impl != model:
+    if c[0] == "xopt":
+        return classify_xopt(case, c, impl)
+    if c[0] not in ("opt", "optrepeat") or impl != model:
         return None
     cands = syntactic_candidates(case, c, impl, model, spec)
     if not cands:
@@ -190,6 +327,19 @@ def classify(case, i, impl, model, spec):
     # a case that looks like a known finding but lies inside the theorem's hypotheses, or outside them
     # only for a hazard of another name: theorem and classification contradict each other
     return "OPTSAFE-CONTRADICTION"
+
+
+def classify_xopt(case, c, impl):
+    """D23 only: the optimised execution raises TypeError, the unoptimised one agrees with the independent
+    evaluation, and the tree folds a legacy tuple/list Eq constant (nothing else is excused)"""
+    m = impl.split(" unoptimised=")
+    if len(m) != 2 or m[0] != "optimised=err TypeError":
+        return None
+    u, ind = m[1].split(" independent=")
+    has_none = {d[1]: True for d in case["cmds"] if d[0] == "doc" and d[3:] == ["none"]}
+    if u == ind and qtree.xhazards(qtree.parse_tokens(list(c[1:])), case["kinds"], has_none) == {"D23"}:
+        return "D23"
+    return None
 
 
 def syntactic_candidates(case, c, impl, model, spec):
@@ -217,6 +367,10 @@ def syntactic_candidates(case, c, impl, model, spec):
 
 
 def nontrivial(case, outs):
+    for c, o in zip(case["cmds"], outs):
+        if c[0] == "xopt" and o == "ok" and qtree.xfolds(qtree.xconstruct(qtree.parse_tokens(list(c[1:]))), []) \
+                and any(len(d) > 3 and d[3] != "none" for d in case["cmds"] if d[0] == "doc"):
+            return True         # three agreeing opinions on a tree the optimiser folds, over a non-empty catalog
     for j, (c, o) in enumerate(zip(case["cmds"], outs)):
         if c[0] == "optshape" and o != " ".join(map(str, c[1:])) and not o.startswith("err"):
             if any(x.startswith("{") and x != "{}" for x in outs):
@@ -225,8 +379,32 @@ def nontrivial(case, outs):
 
 
 def features(case, outs):
-    f = []
+    f = ["mode:" + case.get("mode", "small")]
     for c, o in zip(case["cmds"], outs):
+        if c[0] == "xopt":
+            t = qtree.parse_tokens(list(c[1:]))
+            f.append("xopt:" + ("agree" if o == "ok" else "differ"))
+            f += ["xopt-const:" + x for x in qtree.xfeatures(t)]
+            folds = qtree.xfolds(qtree.xconstruct(t), [])
+            for op, cc, i, leaves in folds:
+                f.append("xopt-fold:" + {("or", "eq"): "any", ("and", "eq"): "all", ("and", "noteq"): "notany",
+                                         ("or", "noteq"): "notall"}[(op, cc)])
+                for x in sorted(set(x for k in leaves for x in qtree.xfeatures(k))):
+                    f.append("xopt-fold-over:" + x)
+            eff = qtree.xeffective(t)
+            if any(c in ("gt", "ge") for c, _ in eff) and any(c in ("lt", "le") for c, _ in eff):
+                f.append("xopt:lower+upper-bounds")
+            idx = set(i for _, i in qtree.xeffective(t))
+            if any(x[1] == "twocat" for x in case["cfg"]) and any(i ^ 1 in idx for i in idx):
+                f.append("xopt:same-named-indexes-mixed")
+            continue
+        if c[0] in ("opt", "optrepeat") and any(x[1] == "twocat" for x in case["cfg"]):
+            idx = set(i for _, i in qtree.xeffective(qtree.parse_tokens(list(c[1:]))))
+            if any(i ^ 1 in idx for i in idx):
+                f.append("same-named-indexes-mixed")
+        if c[0] in ("opt", "optrepeat"):
+            from props import c04
+            f.append("arity:" + c04.arity_class(c04.max_arity(qtree.parse_tokens(list(c[1:])))))
         if c[0] == "optshape":
             toks = o.split()
             f.append("optimiser:" + ("unchanged" if o == " ".join(map(str, c[1:])) else "changed"))
@@ -238,7 +416,8 @@ def features(case, outs):
             for t in ("any", "all", "notany", "notall"):
                 if t in toks and t not in c[1:]:
                     f.append("folded:" + t)
-        elif c[0] == "opt":
+        elif c[0] in ("opt", "optrepeat"):
+            f.append("cmd:" + c[0])
             f.append("opt-answer:" + ("empty" if o == "{}" else "nonempty" if o.startswith("{") else o))
         elif c[0] == "optsafe" and o is not None:
             # share of trees inside the hypotheses of c05_optimize_sound_partial
@@ -257,6 +436,9 @@ def witnesses():
         ("D3", mk("opt", "or", 2, "cmp", "noteq", 0, "one", 5, "cmp", "noteq", 0, "one", 7)),
         ("D5", mk("opt", "or", 2, "cmp", "lt", 0, "one", 2, "cmp", "gt", 0, "one", 6)),
         ("D2", mk("opt", "or", 2, "cmp", "noteq", 1, "one", 1, "cmp", "noteq", 1, "one", 2)),
+        ("D23", {"session": "query", "cfg": cfg[:2], "kinds": ["field"], "mode": "exotic",
+                 "cmds": [["doc", 0, 1, 1], ["doc", 0, 2, 3], ["doc", 0, 3, 5], ["doc", 0, 4, 8], ["doc", 0, 5, 2],
+                          ["xopt", "or", 2, "cmp", "eq", 0, "one", "t2:4", "cmp", "eq", 0, "one", 8]]}),
     ]
 
 
@@ -266,7 +448,7 @@ NEIGHBOURHOOD_TRIES = 400
 def neighbourhood(rng, case):
     """a tree shape diverged from the model: look for a catalog on which the *result* is wrong"""
     kinds = case["kinds"]
-    trees = [list(c[1:]) for c in case["cmds"] if c[0] != "doc"]
-    _, cfg, docs = qtree.gen_catalog(rng, rng.random() < 0.5, kinds=kinds)
-    return {"session": "query", "cfg": cfg, "kinds": kinds,
-            "cmds": docs + [["opt"] + t for t in trees]}
+    trees = [["xopt" if c[0] == "xopt" else "opt"] + list(c[1:]) for c in case["cmds"] if c[0] != "doc"]
+    twocat = any(c[1] == "twocat" for c in case["cfg"])       # same-named indexes stay same-named
+    _, cfg, docs, _ = qtree.gen_catalog_x(rng, rng.random() < 0.5, kinds=kinds, twocat=twocat)
+    return {"session": "query", "cfg": cfg, "kinds": kinds, "cmds": docs + trees}
